@@ -25,6 +25,10 @@ from . import npmodel as npm
 from .extract import Sources
 
 
+import os
+_TRACE = bool(os.environ.get("FVC_TRACE"))
+
+
 class PathInfeasible(Exception):
     pass
 
@@ -44,6 +48,7 @@ class Path:
         self.sl.set("timeout", 3000)
         self.unknown_feasibility = False
         self.order_sampled = False
+        self.order_mode = None
 
     def add_fact(self, f, tag):
         if isinstance(f, bool):
@@ -91,6 +96,8 @@ class Path:
                 raise PathInfeasible()
             self.pos += 1
         self.taken.append(d)
+        if _TRACE:
+            print("  decide", "REPLAY" if self.pos <= len(self.trace) else "NEW", d, str(cond).replace("\n", " ")[:150])
         lit = cond if d else z3.Not(cond)
         self.pc.append(lit)
         self.s.add(lit)
@@ -112,16 +119,22 @@ class Path:
         return d[1] if isinstance(d, tuple) else d
 
     def set_order(self, elems):
-        """iteration order of a set is an arbitrary choice: all permutations up to size 3, the
-        insertion order and its reverse beyond (recorded as an assumption `set-order-sampled`)"""
+        """Iteration order of a set is an arbitrary choice.  It is explored through three *global* modes per
+        harness (every set of a path is read in insertion order / reversed / rotated by one), not through all
+        permutations of every set (that is exponential in the number of sets); sets with more than two elements
+        are therefore only sampled, which is recorded as the assumption `set-order-sampled`."""
         n = len(elems)
         if n <= 1:
             return elems
-        if n <= 3:
-            perms = list(itertools.permutations(elems))
-            return list(perms[self.choose(len(perms))])
-        self.order_sampled = True
-        return elems if self.choose(2) == 0 else elems[::-1]
+        if self.order_mode is None:
+            self.order_mode = self.choose(3)
+        if n > 2:
+            self.order_sampled = True
+        if self.order_mode == 0:
+            return elems
+        if self.order_mode == 1:
+            return elems[::-1]
+        return elems[1:] + elems[:1]
 
 
 class VC:
@@ -259,6 +272,23 @@ class SymCtx:
         forms = [x for x, _ in self.path.facts] + self.path.pc + [z3.Not(f)]
         r, m, secs, be = solver.check_sat(forms, self.ex.budget)
         self.vcs.append(VC(name, r, secs, be, pid, m))
+
+    def lemma(self, goal, name, premises=None):
+        """ghost assertion: prove `goal` (from the given premises only, or from all facts of the path), then make
+        it available as a hypothesis.  It guides the solver and is never an assumption: it is itself a VC."""
+        goal = _to_bool(goal)
+        if isinstance(goal, bool):
+            if not goal:
+                self.ensure(False, "lemma:" + name)
+            return
+        if not self.ex.collect_only:
+            prem = [_to_bool(p) for p in premises] if premises is not None else [x for x, _ in self.path.facts] + self.path.pc
+            prem = [p for p in prem if not isinstance(p, bool)]
+            r, m, secs, be = solver.check_sat(prem + [z3.Not(goal)], self.ex.budget)
+            self.vcs.append(VC("lemma:" + name, r, secs, be, self.ex.path_counter, m))
+            if r != "unsat":
+                return
+        self.path.add_fact(goal, "lemma")
 
     def fail(self, name, detail=""):
         self.ensure(False, name)
@@ -483,6 +513,9 @@ class NativeCtx:
         self.checked.append((name, ok))
         if not ok:
             self.failures.append(name)
+
+    def lemma(self, goal, name, premises=None):
+        self.ensure(goal, "lemma:" + name)
 
     def fail(self, name, detail=""):
         self.checked.append((name, False))
